@@ -447,6 +447,8 @@ inductive SOp (K V : Type)
   | eq (h o : String)
   | dump (h : String)              -- cache.dump():  archive.update(cache)
   | load (h : String)              -- cache.load():  cache.update(archive.__asdict__())
+  | dumpKeys (h : String) (ks : List K)   -- cache.dump(*ks): archive.update({k: cache[k]}) for resident k
+  | sync (h : String)              -- cache.sync(clear=True): archive.clear(); cache.dump()
   deriving Repr
 
 def BSt.ordered : BSt K V → Bool
@@ -491,6 +493,21 @@ def Sys.step [DecidableEq V] (c : Codec K V) (s : Sys K V) : SOp K V → Sys K V
       match st.asDict c with
       | some a => (put s n { mem := some (update m a), st := st }, .unit)
       | none => (s, .err .keyError)
+    | _ => (s, .refused)
+  | .dumpKeys n ks =>
+    match get? s n with
+    | some { mem := some m, st } =>
+      let r := ks.foldl (fun (acc : BSt K V × Out K V) k =>
+        match acc.2, get? m k with
+        | .unit, some v => acc.1.step c (.update [(k, v)])
+        | _, _ => acc) (st, .unit)
+      (put s n { mem := some m, st := r.1 }, r.2)
+    | _ => (s, .refused)
+  | .sync n =>
+    match get? s n with
+    | some { mem := some m, st } =>
+      let r := (st.step c .clear).1.step c (.update m)
+      (put s n { mem := some m, st := r.1 }, r.2)
     | _ => (s, .refused)
 
 end Klepto.Backend
